@@ -45,8 +45,9 @@ def run(ctx):
         if f.rule == 'R6.1':
             f.rule = 'R11.2'
     po = ctx.repo.funcs('fst_core', '_params_offset')[0]
-    txt = norm(ast.unparse(po.node), 100000)
-    ctx.check('R11.2', '.encode()' in txt or 'lenbytes' in txt or 'c2b(' in txt, 'fst_core', '_params_offset', 'byte deltas via encode() / c2b / lenbytes',
+    bytes_src = any((isinstance(x, ast.Call) and call_name(x) in ('encode', 'c2b')) or (isinstance(x, ast.Attribute) and x.attr == 'lenbytes')
+                    for x in ast.walk(po.node))
+    ctx.check('R11.2', bytes_src, 'fst_core', '_params_offset', 'byte deltas via encode() / c2b / lenbytes',
               '_params_offset must compute the column delta in bytes', po.lineno)
 
     ctx.rule('R11.3', 'in _offset(): the walk enumerates children through syntax_ordered_children and every early `break` is control dependent on a '
